@@ -1595,6 +1595,22 @@ def impl_route(line):
     bc, stem = bconfig_of(src)
     with with_pubkey(stem, "own"):
         c2http = C2.C2Http(bc, aes_key=bytes(16), hmac_key=bytes(16))
+    import zlib as _zlib
+    if _zlib.crc32(line.encode()) % 2 == 0:
+        # routing is a function of the request alone: earlier decisions of the SAME decoder (the same path under the other verbs,
+        # the other configured paths under this verb) must leave no trace
+        try:
+            warm = [(m, uri) for m in (c2http.get_verb, c2http.submit_verb, b"PUT")] + \
+                   [(method, u) for u in list(c2http.get_uris) + [c2http.submit_uri]]
+        except Exception:  # noqa: BLE001
+            warm = []
+        for m, u in warm:
+            if (m, u) == (method, uri):
+                continue
+            try:
+                c2http.get_transform_for_http(C2.HttpRequest(method=m, uri=u, params={}, headers={}, body=b""))
+            except Exception:  # noqa: BLE001
+                pass
     try:
         t = c2http.get_transform_for_http(C2.HttpRequest(method=method, uri=uri, params={}, headers={}, body=b""))
     except ValueError:
